@@ -164,6 +164,8 @@ pub struct Compiler {
     instructions: Vec<u8>,
     last_instruction: Option<OpCode>,
     loop_contexts: Vec<LoopContext>,
+    /// Number of operand values that expressions have pushed and not consumed yet, at this point in the code
+    pending_operands: usize,
     gc: GC,
 }
 
@@ -176,13 +178,17 @@ struct LoopContext {
     /// Stores the index of all JUMP instructions within the current loop context that originate from a break statement
     /// Once this loop context ends, these instructions should have their operands updated to the first instruction that follows this loop
     break_instructions: Vec<usize>,
+
+    /// Number of pending operand values when the loop began: stop and volgende return the stack to this height
+    pending_operands: usize,
 }
 
 impl LoopContext {
-    fn new(start: usize) -> Self {
+    fn new(start: usize, pending_operands: usize) -> Self {
         Self {
             start,
             break_instructions: Vec::new(),
+            pending_operands,
         }
     }
 }
@@ -196,6 +202,7 @@ impl Compiler {
             constants: Vec::new(),
             last_instruction: None,
             loop_contexts: Vec::new(),
+            pending_operands: 0,
             gc: GC::new(),
         }
     }
@@ -211,6 +218,7 @@ impl Compiler {
                 self.instructions.clear();
                 self.last_instruction = None;
                 self.loop_contexts.clear();
+                self.pending_operands = 0;
                 self.symbols.rollback(num_globals);
                 return Err(e);
             }
@@ -289,6 +297,15 @@ impl Compiler {
         self.last_instruction = None;
     }
 
+    /// An early exit in the middle of an expression (`1 + als a { stop }`) would leave the operands that were
+    /// already pushed behind: pop the ones that were pushed since the innermost loop began.
+    fn discard_pending_operands(&mut self) {
+        let base = self.loop_contexts.last().map_or(self.pending_operands, |ctx| ctx.pending_operands);
+        for _ in base..self.pending_operands {
+            self.emit_opcode(OpCode::Pop);
+        }
+    }
+
     fn compile_block_statement(&mut self, stmts: &[Stmt]) -> Result<(), Error> {
         // if block statement does not contain any other statements or expressions
         // simply push a NULL onto the stack
@@ -346,6 +363,7 @@ impl Compiler {
                 self.emit_opcode(OpCode::ReturnValue);
             }
             Stmt::Break => {
+                self.discard_pending_operands();
                 self.emit_opcode(OpCode::Null);
                 let pos = self.instructions.len();
                 self.emit_opcode(OpCode::Jump);
@@ -359,6 +377,7 @@ impl Compiler {
                 ctx.break_instructions.push(pos);
             }
             Stmt::Continue => {
+                self.discard_pending_operands();
                 self.emit_opcode(OpCode::Null);
 
                 let pos = match self.loop_contexts.iter().last() {
@@ -505,8 +524,11 @@ impl Compiler {
                     Expr::Identifier(name) => name,
                     Expr::Index { left, index } => {
                         self.compile_expression(left)?;
+                        self.pending_operands += 1;
                         self.compile_expression(index)?;
+                        self.pending_operands += 1;
                         self.compile_expression(right)?;
+                        self.pending_operands -= 2;
                         self.emit_opcode(OpCode::IndexSet);
                         return Ok(());
                     }
@@ -584,7 +606,9 @@ impl Compiler {
 
                 // If that failed because we haven't implemented a specialized instruction yet, compile it as a sequence of normal instructions
                 self.compile_expression(left)?;
+                self.pending_operands += 1;
                 self.compile_expression(right)?;
+                self.pending_operands -= 1;
                 self.compile_operator(operator);
             }
             Expr::If {
@@ -633,9 +657,13 @@ impl Compiler {
                 // TODO: Can we get rid of this now that empty block statement emit a NULL?
                 self.emit_opcode(OpCode::Null);
                 self.loop_contexts
-                    .push(LoopContext::new(self.instructions.len()));
+                    .push(LoopContext::new(self.instructions.len(), self.pending_operands));
                 let pos_before_condition = self.instructions.len();
+
+                // (the value of the previous iteration is still on the stack while the condition is evaluated)
+                self.pending_operands += 1;
                 self.compile_expression(condition)?;
+                self.pending_operands -= 1;
 
                 let pos_jump_if_false = self.instructions.len();
                 self.emit_opcode(OpCode::JumpIfFalse);
@@ -683,6 +711,7 @@ impl Compiler {
 
                 // A function body starts without any enclosing loops: stop & volgende can not leave the function
                 let outer_loop_contexts = std::mem::take(&mut self.loop_contexts);
+                let outer_pending_operands = std::mem::take(&mut self.pending_operands);
 
                 // Compile function in a new scope
                 self.symbols.new_context();
@@ -706,6 +735,7 @@ impl Compiler {
                 // Switch back to previous scope again
                 let num_locals = self.symbols.leave_context();
                 self.loop_contexts = outer_loop_contexts;
+                self.pending_operands = outer_pending_operands;
 
                 // Create function object and store as constant
                 let obj = Object::function(
@@ -733,10 +763,12 @@ impl Compiler {
             Expr::Call { left, arguments } => 'compile_call: {
                 for a in arguments {
                     self.compile_expression(a)?;
+                    self.pending_operands += 1;
                 }
 
                 if let Expr::Identifier(name) = &**left {
                     if let Some(builtin) = builtins::resolve(name) {
+                        self.pending_operands -= arguments.len();
                         self.emit_opcode(OpCode::CallBuiltin);
                         self.emit_u8(builtin as u8);
                         self.emit_u8(operand(arguments.len())?);
@@ -744,6 +776,7 @@ impl Compiler {
                     }
                 }
                 self.compile_expression(left)?;
+                self.pending_operands -= arguments.len();
                 self.emit_opcode(OpCode::Call);
                 self.emit_u8(operand(arguments.len())?);
             }
@@ -751,14 +784,18 @@ impl Compiler {
             Expr::Array { values } => {
                 for v in values {
                     self.compile_expression(v)?;
+                    self.pending_operands += 1;
                 }
+                self.pending_operands -= values.len();
                 self.emit_opcode(OpCode::Array);
                 self.emit_u16(operand(values.len())?);
             }
 
             Expr::Index { left, index } => {
                 self.compile_expression(left)?;
+                self.pending_operands += 1;
                 self.compile_expression(index)?;
+                self.pending_operands -= 1;
                 self.emit_opcode(OpCode::IndexGet);
             }
         }
